@@ -82,10 +82,19 @@ func (s *genState) genGraph(depth int) int {
 		}
 	}
 	if s.resume {
-		s.genChains(&g, gi, depth, n)
+		s.genChains(&g, gi, depth, n, true)
+	} else if r.Chance(1, 4) {
+		s.genChains(&g, gi, depth, n, false)
 	}
-	if !g.Wf && !g.Dag && chainOrder(g) != nil && r.Chance(1, 2) {
-		g.Chain = true // one chain START -> ... -> END: build it with compose.NewChain
+	if order := chainOrder(g); !s.resume && !g.Wf && !g.Dag && order != nil && r.Chance(1, 2) {
+		// the chain runs 1+Loop times in a run: last -> (branch) -> back relay -> first
+		g.Loop = r.Range(1, 2)
+		g.Nodes = append(g.Nodes, Node{Key: 90, Kind: "relay", Back: true, Runs: true, Pred: order[len(order)-1].Key})
+	}
+	if g.Loop == 0 && !g.Wf && !g.Dag && chainShape(g) != "" && r.Chance(1, 2) {
+		// one chain START -> ... -> END, a fan-out from START or one multi-branch from START:
+		// build it with compose.NewChain (AppendXxx / AppendParallel / AppendBranch)
+		g.Chain = true
 	}
 	s.c.Forest[gi] = g
 	return gi
@@ -95,7 +104,7 @@ func (s *genState) genGraph(depth int) int {
 // that there is something left to run after an interrupt; then interrupt points and rerun
 // nodes are chosen. In pregel mode every chain has the same length (END fires on its first
 // input), in DAG mode any.
-func (s *genState) genChains(g *Graph, gi, depth, n int) {
+func (s *genState) genChains(g *Graph, gi, depth, n int, interrupts bool) {
 	r := s.r
 	all := !g.Dag && r.Chance(1, 2)
 	next := 11
@@ -112,6 +121,9 @@ func (s *genState) genChains(g *Graph, gi, depth, n int) {
 		next += 2
 		s.genKind(&tail, gi, depth, r.Chance(1, 5))
 		g.Nodes = append(g.Nodes, relay, tail)
+	}
+	if !interrupts {
+		return
 	}
 	for i := range g.Nodes {
 		nd := &g.Nodes[i]
@@ -367,6 +379,57 @@ func (s *genState) genCall(ci int) Call {
 	return cl
 }
 
+func cloneScript(sc []BOp) []BOp {
+	out := make([]BOp, len(sc))
+	for i, b := range sc {
+		n := b
+		n.Items = append([][2]int(nil), b.Items...)
+		n.Hs = append([]int(nil), b.Hs...)
+		n.Paths = nil
+		for _, p := range b.Paths {
+			n.Paths = append(n.Paths, append([]int{}, p...))
+		}
+		if b.Paths != nil && n.Paths == nil {
+			n.Paths = [][]int{}
+		}
+		out[i] = n
+	}
+	return out
+}
+
+// shareWith: call cl continues the script base of an earlier call: the options built by base
+// are the caller's variables, passed again (and derived from) by this call.
+func (s *genState) shareWith(base []BOp, basePass []int, cl Call) Call {
+	r := s.r
+	n0 := len(base)
+	out := cl
+	out.Script = cloneScript(base)
+	for _, b := range cloneScript(cl.Script) {
+		if b.Op == "designate" {
+			b.Parent += n0
+			if r.Chance(1, 4) {
+				b.Parent = r.Intn(n0) // derive from an option of the earlier call
+			}
+		}
+		out.Script = append(out.Script, b)
+	}
+	out.Pass = nil
+	for _, j := range cl.Pass {
+		out.Pass = append(out.Pass, j+n0)
+	}
+	for _, j := range basePass {
+		if j < n0 && r.Chance(2, 3) {
+			at := r.Intn(len(out.Pass) + 1)
+			out.Pass = append(out.Pass[:at], append([]int{j}, out.Pass[at:]...)...)
+		}
+	}
+	if r.Chance(1, 3) {
+		// exactly the options of the earlier call, nothing of its own
+		out.Pass = append([]int{}, basePass...)
+	}
+	return out
+}
+
 func (engine) Generate(r *lib.Rng, tier string, i int) any {
 	s := &genState{r: r, c: &Case{}, maxDepth: 2, maxG: 5}
 	if tier == "thorough" {
@@ -384,8 +447,13 @@ func (engine) Generate(r *lib.Rng, tier string, i int) any {
 		return s.genSession()
 	}
 	s.c.Seq = r.Chance(1, 6)
+	s.c.Share = r.Chance(1, 4)
 	for ci := 0; ci < 2; ci++ {
-		s.c.Calls = append(s.c.Calls, s.genCall(ci))
+		cl := s.genCall(ci)
+		if s.c.Share && ci > 0 {
+			cl = s.shareWith(s.c.Calls[0].Script, s.c.Calls[0].Pass, cl)
+		}
+		s.c.Calls = append(s.c.Calls, cl)
 	}
 	return s.c
 }
@@ -424,8 +492,16 @@ func (s *genState) genSession() *Case {
 			hasRerun = hasRerun || nd.Rerun
 		}
 	}
+	c.Share = r.Chance(1, 4)
+	var base0 []BOp
+	var pass0 []int
 	for ci := 0; ci < nc; ci++ {
 		cl := s.genCall(ci)
+		if ci == 0 {
+			base0, pass0 = cloneScript(cl.Script), append([]int{}, cl.Pass...)
+		} else if c.Share {
+			cl = s.shareWith(base0, pass0, cl)
+		}
 		if !r.Chance(1, 4) {
 			cl.Stream = stream // mostly one way of calling per session, sometimes mixed
 		}
